@@ -4,7 +4,11 @@ import json, os, sys
 sys.path.insert(0, os.path.dirname(os.path.abspath(__file__)))
 import specs
 
-NOT_APPLICABLE = specs.NOT_APPLICABLE
+NOT_APPLICABLE = dict(specs.NOT_APPLICABLE)
+for line in open(os.path.join(os.path.dirname(os.path.abspath(__file__)), "properties.jsonl")):
+    pid = json.loads(line)["id"]
+    if pid not in specs.PROPS and pid not in NOT_APPLICABLE:
+        NOT_APPLICABLE[pid] = "check not built yet (planned, see DESIGN.md section 4); not claimed until its quick check runs clean on the unchanged tree"
 
 checks = []
 for pid in sorted(specs.PROPS):
